@@ -177,6 +177,8 @@ def run(ctx):
 
     rm.replay_idle_clause(ctx, res, 'C03', 'C03.f', 'every exit of play() resets counter / outputs / playback recording (ordinals restart at 1)')
     rm.interception_flag_clause(ctx, res, 'C03', 'C03.g')
+    rm.extractor_runs_idle_clause(ctx, res, 'C03', 'C03.i')
+    rm.api_leaves_replay_state_clause(ctx, res, 'C03', 'C03.j')
     # ---- C03.h the helpers that build the operation entry and the keys keep no state between calls
     ch = res.clause('C03.h', 'R-PROV', 'capture helpers (exception form, key builders) are stateless', floor=2)
     helpers = [roles.key_builders['output'], roles.key_builders['input']]
